@@ -662,6 +662,7 @@ class Session:
         self.pairing_config = pairing_config
         self.wait_before_continuing: asyncio.Future[None] | None = None
         self.completed = False
+        self.failed = False
         self.ctkd_task: Awaitable[None] | None = None
 
         # Decide if we're the initiator or the responder
@@ -796,6 +797,10 @@ class Session:
         )
 
     def get_long_term_key(self, rand: bytes, ediv: int) -> bytes | None:
+        if self.failed:
+            # A failed pairing doesn't produce a key
+            return None
+
         if not self.sc and not self.completed:
             if rand == self.ltk_rand and ediv == self.ltk_ediv:
                 return self.stk
@@ -1369,6 +1374,7 @@ class Session:
             return
 
         self.completed = True
+        self.failed = True
 
         error = ProtocolError(reason, 'smp', reason.name)
         if self.pairing_result is not None and not self.pairing_result.done():
